@@ -552,7 +552,14 @@ func c05Closes(c *core.Ctx, ls *core.LockSets, fns []*ssa.Function) []closeSite 
 			key := core.FuncName(fn) + ":close(" + core.ValName(ch) + ")"
 			// what is closed
 			var made *ssa.MakeChan
-			for _, o := range core.Origins(ch) {
+			chOrigins := core.Origins(ch)
+			for _, o := range chOrigins {
+				// a parameter of a "virtual closure" stands for the argument of its only call
+				if r := core.ResolveFree(o); r != o {
+					chOrigins = append(chOrigins, core.Origins(r)...)
+				}
+			}
+			for _, o := range chOrigins {
 				if mk, ok := o.(*ssa.MakeChan); ok {
 					made = mk
 				}
@@ -608,8 +615,14 @@ func c05Closes(c *core.Ctx, ls *core.LockSets, fns []*ssa.Function) []closeSite 
 			if made != nil && !inLoop {
 				// (a): the closing function is the maker or a literal nested in it, created once, run once (defer/go/direct)
 				root := fn
-				for root != made.Parent() && root.Parent() != nil {
-					root = root.Parent()
+				for root != made.Parent() {
+					if root.Parent() != nil {
+						root = root.Parent()
+					} else if site := core.InlineSite[root]; site != nil {
+						root = site.Parent()
+					} else {
+						break
+					}
 				}
 				if root == made.Parent() && closureRunsOnce(fn, made.Parent()) {
 					argA = true
@@ -725,7 +738,12 @@ func closureRunsOnce(fn, parent *ssa.Function) bool {
 		return true
 	}
 	if fn.Parent() == nil {
-		return false
+		// a "virtual closure": its only call (go / defer / call) outside any loop
+		site := core.InlineSite[fn]
+		if site == nil || core.LoopOf(site.Parent())[site.Block()] >= 0 {
+			return false
+		}
+		return closureRunsOnce(site.Parent(), parent)
 	}
 	sites := core.ClosureSites(fn)
 	if len(sites) != 1 {
@@ -1159,6 +1177,17 @@ func cancelDisposition(fns []*ssa.Function, fn *ssa.Function, v ssa.Value, depth
 						if a == v && i < len(ci.Static.Params) {
 							if h := cancelDisposition(fns, ci.Static, ci.Static.Params[i], depth+1); h != "" {
 								hows = append(hows, "passed to "+core.FuncName(ci.Static)+": "+h)
+							}
+						}
+					}
+				}
+			case *ssa.Go:
+				// handed to the goroutine that is started here: follow the parameter
+				if callee := x.Call.StaticCallee(); callee != nil && callee.Blocks != nil {
+					for i, a := range x.Call.Args {
+						if a == v && i < len(callee.Params) {
+							if h := cancelDisposition(fns, callee, callee.Params[i], depth+1); h != "" {
+								hows = append(hows, "passed to the goroutine "+core.FuncName(callee)+": "+h)
 							}
 						}
 					}
